@@ -207,6 +207,23 @@ def run(chk, build):
             chk.count(key=("disabled", name, j))
             if why:
                 oracle_failed |= chk.fail("oracle", {"disabled": name, "samples": s}, why)
+    # X-grammar: int_ok / float_ok / bool_ok (the recognisers of the theorems) against the package's IntString / FloatString /
+    # BooleanString on every string of length <= 4 over 16 characters plus structured random strings
+    import os, re, subprocess
+    wd = os.path.join(chk.workdir, "grammar")
+    os.makedirs(wd, exist_ok=True)
+    env = dict(os.environ, J2M_REPO=common.REPO, PYTHONPATH=common.REPO)
+    try:
+        p = subprocess.run([common.PY, os.path.join(common.VERIF, "tools", "validate_grammar.py"), "--random", "8000" if tier == "quick" else "150000",
+                            "--seed", str(chk.seed + 1), "--jobs", "8", "--keep", wd], capture_output=True, text=True, env=env, timeout=3000)
+        out, rc = (p.stdout + p.stderr).strip(), p.returncode
+    except subprocess.TimeoutExpired:
+        out, rc = "timeout", 124
+    m = re.search(r"OK\s+(\d+) strings", out)
+    chk.views["X-grammar"] = {"cases": int(m.group(1)) if m else 0, "disagreements": 0 if rc == 0 else 1, "errors": [] if rc == 0 else [out[-600:]]}
+    chk.evaluations += int(m.group(1)) if m else 0
+    if rc != 0:
+        disagreements.append({"view": "X-grammar", "error": out[-1500:]})
     base.conclude(chk, proofs_ok, disagreements, oracle_failed)
 
 
